@@ -98,7 +98,8 @@ pub fn gen_data(t: &mut Tape, wbits: u32, max_len: usize) -> Vec<u8> {
                 // very low entropy: random letters from an alphabet of 2..4 symbols (long hash chains,
                 // many equally good match candidates)
                 let a = 2 + x.below(3);
-                for _ in 0..len {
+                // (bounded: the slow levels spend milliseconds per KiB on such data)
+                for _ in 0..len.min(16384) {
                     out.push(b'a' + x.below(a) as u8);
                 }
             }
